@@ -398,14 +398,51 @@ def hint(ctx):
                               "prefer overrides an explicitly chosen backend")
     ctx.floor(n, 2, "uses of prefer in forcing conditions")
     g = cfg_of(f)
-    for a in nodes_of_type(f, ast.Assign):
-        if "explicit_backend" in stores_to(a) and is_const(a.value, False):
+    defs = [a for a in nodes_of_type(f, ast.Assign) if "explicit_backend" in stores_to(a)]
+    ctx.need(defs, "explicit_backend is no longer computed in _get_active_backend")
+    none_tests = [n_ for n_ in nodes_of_type(f, ast.If) if unparse(n_.test) == "backend is None"]
+    for a in defs:
+        if is_const(a.value, False):
             conds = g.conditions_at(g.nodes_of(a))
             ctx.check(any(unparse(t) == "backend is None" and pol for (_, t, pol) in conds), a, "explicit_backend is False only when no backend is set in explicit arguments or context")
+        elif is_const(a.value, True):
+            ctx.check(bool(none_tests) and g.every_path_to(g.nodes_of_all(none_tests), g.nodes_of(a)), a, "explicit_backend starts True before the `backend is None` test")
+        else:
+            ok = unparse(a.value) in ("backend is not None", "not backend is None", "not (backend is None)")
+            ctx.check(ok, a, "explicit_backend is `backend is not None`", "explicit_backend is computed as `%s`, not from whether a backend was set: prefer is wrongly ignored/applied" % unparse(a.value))
+    for n_ in none_tests:
+        fl = [a for a in n_.body if isinstance(a, ast.Assign) and "explicit_backend" in stores_to(a) and is_const(a.value, False)]
+        already = any(not isinstance(a.value, ast.Constant) for a in defs)
+        ctx.check(bool(fl) or already, n_, "no backend set => explicit_backend = False (so that prefer can act)",
+                  "when no backend is set, explicit_backend is not cleared: prefer is ignored")
     for n_ in nodes_of_type(f, ast.If):
         if unparse(n_.test) == "force_processes":
             rets = [r for r in n_.body if isinstance(r, ast.Return)]
             ctx.check(bool(rets), n_, "prefer='processes' falls back to the default process backend")
+
+
+def passthrough(ctx):
+    """Every outcome of _get_active_backend keeps the context configuration."""
+    f = ctx.repo.func(PAR, "_get_active_backend")
+    bc = _single_defs(f, "backend_config")
+    ctx.check(len(bc) == 1 and unparse(bc[0].value) == "getattr(_backend, 'config', default_parallel_config)", bc[0] if bc else f,
+              "the context configuration is read from the thread-local")
+    rets = nodes_of_type(f, ast.Return)
+    ctx.floor(len(rets), 3, "returns of _get_active_backend")
+    for r in rets:
+        ctx.need(isinstance(r.value, ast.Tuple) and len(r.value.elts) == 2, "return is not a (backend, config) pair")
+        c = r.value.elts[1]
+        v = c
+        if isinstance(c, ast.Name) and c.id != "backend_config":
+            d = _single_defs(f, c.id)
+            v = d[0].value if len(d) == 1 else c
+            # subscript stores into the copy: only n_jobs may be overridden
+            for n in body_walk(f):
+                if isinstance(n, ast.Subscript) and dotted(n.value) == c.id and isinstance(n.ctx, ast.Store):
+                    ctx.check(const_value(n.slice) == "n_jobs", n, "the fallback configuration only overrides n_jobs", "the fallback configuration overrides %s" % unparse(n.slice))
+        ok = unparse(v) in ("backend_config", "backend_config.copy()")
+        ctx.check(ok, r, "returned configuration is the context configuration (or a copy of it)",
+                  "returned configuration is %s: settings of the enclosing parallel_config are dropped on this path" % unparse(v))
 
 
 def valid(ctx):
@@ -432,4 +469,5 @@ def run(ctx):
     ctx.run("C17.RESOLVE-BEFORE-USE", "R-FLOW", resolve_before_use)
     ctx.run("C17.SHAREDMEM", "R-TABLE/R-ORDER", sharedmem)
     ctx.run("C17.HINT", "R-ORDER", hint)
+    ctx.run("C17.PASSTHROUGH", "R-FLOW", passthrough)
     ctx.run("C17.VALID", "R-TABLE", valid)
